@@ -29,6 +29,8 @@ type c19SessSpec struct {
 	Lines []int
 	Funcs []string
 	Reqs  []c19Req
+	// sessions run before this one on the same interpreter (chains), for the replay
+	Earlier []map[string]any
 }
 
 type c19Case struct {
@@ -173,6 +175,50 @@ func c19Specs(r *rng, p c19Prog, steps int, thorough bool) []c19SessSpec {
 	return specs
 }
 
+// c19ChainSpecs chooses the sessions that are run one after the other on one interpreter.
+func c19ChainSpecs(r *rng, p c19Prog, steps int) []c19SessSpec {
+	ends := []string{"c", "i", "o"}
+	for i := len(ends) - 1; i > 0; i-- {
+		j := r.intn(i + 1)
+		ends[i], ends[j] = ends[j], ends[i]
+	}
+	var out []c19SessSpec
+	for k, end := range ends {
+		var lines []int
+		for l := 1; l <= p.NLines; l++ {
+			if r.chance(30) {
+				lines = append(lines, l)
+			}
+		}
+		lines = append(lines, p.Markers[r.intn(len(p.Markers))], 999)
+		seen := map[int]bool{}
+		var uniq []int
+		for _, l := range lines {
+			if !seen[l] {
+				seen[l] = true
+				uniq = append(uniq, l)
+			}
+		}
+		funcs := []string{p.Funcs[r.intn(len(p.Funcs))], "nosuch"}
+		var rq []c19Req
+		for i, n := 0, 2+r.intn(10); i < n; i++ {
+			rq = append(rq, c19Req(r.pick([]string{"c", "i", "o", "u"})))
+		}
+		switch end {
+		case "c":
+			rq = append(rq, "c")
+		default:
+			rq = append(rq, c19Rep(c19Req(end), steps+8)...)
+		}
+		sp := c19SessSpec{Kind: fmt.Sprintf("chain:%d/3:last-resume-%s", k+1, end), Lines: uniq, Funcs: funcs, Reqs: rq}
+		for _, e := range out {
+			sp.Earlier = append(sp.Earlier, map[string]any{"lines": e.Lines, "funcs": e.Funcs, "requests": c19ReqString(e.Reqs)})
+		}
+		out = append(out, sp)
+	}
+	return out
+}
+
 func c19Ints(l []int) string {
 	it := make([]string, len(l))
 	for i, v := range l {
@@ -306,9 +352,33 @@ func runC19(args []string) error {
 			markerSet[m] = true
 		}
 		trace := c19MarkerTrace(pr.plainOut)
+		// Several sessions on ONE interpreter (Debug called again on the same compiled program): every
+		// session has stops, the last resume of the three sessions is a continue, a step-into and a
+		// step-over in a seeded order. Every session requests at least one line and one function, so
+		// that SetBreakpoints resets the flags of the session before.
+		type job struct {
+			sp  c19SessSpec
+			ses *c19Session
+		}
+		var jobs []job
 		for _, sp := range specs {
+			jobs = append(jobs, job{sp: sp})
+		}
+		if p.Tag == "gen" && !p.Conc && p.Globals == 0 && (pi%2 == 0 || thorough) {
+			chain := c19ChainSpecs(specRngs[pi], p, steps)
+			sess := c19Chain(p.Src, chain, timeout)
+			for k := range chain {
+				jobs = append(jobs, job{sp: chain[k], ses: &sess[k]})
+			}
+		}
+		for _, jb := range jobs {
+			sp := jb.sp
 			c := c19Case{Prog: pi, Spec: sp}
-			c.Ses = c19Debug(p.Src, sp.Lines, sp.Funcs, sp.Reqs, timeout)
+			if jb.ses != nil {
+				c.Ses = *jb.ses
+			} else {
+				c.Ses = c19Debug(p.Src, sp.Lines, sp.Funcs, sp.Reqs, timeout)
+			}
 			term := c19HasTerminate(sp.Reqs)
 			// ---- reference: which marker lines must be reported
 			want := map[int]bool{}
@@ -521,6 +591,9 @@ func runC19(args []string) error {
 			id++
 			c.ID = id
 			in := map[string]any{"kind": c.Spec.Kind, "program": p.Src, "tag": p.Tag, "lines": c.Spec.Lines, "funcs": c.Spec.Funcs, "requests": c19ReqString(c.Spec.Reqs)}
+			if c.Spec.Earlier != nil {
+				in["earlier_sessions_on_the_same_interpreter"] = c.Spec.Earlier
+			}
 			sm.CaseIndex[fmt.Sprint(id)] = in
 			sm.Evaluations++
 			sm.RefComparisons++
